@@ -48,6 +48,9 @@ type icase struct {
 	genEdit func(t *rapid.T, m any) (e []edit, label string)
 	// chunk structure of the range-checked part (0 if not chunked)
 	chunk int
+	// algorithm identifier (draft-13 §10, Table 18) and application context
+	algID uint32
+	ctx   []byte
 }
 
 func bi(v uint64) *big.Int { return new(big.Int).SetUint64(v) }
@@ -132,7 +135,7 @@ func newCountCase(shares uint8, ctx []byte) (*icase, *buildErr) {
 	if be != nil {
 		return nil, be
 	}
-	c := &icase{I: I, name: "count", desc: fmt.Sprintf("count(shares=%d)", shares), shares: int(shares), scalar: true}
+	c := &icase{I: I, algID: 1, ctx: ctx, name: "count", desc: fmt.Sprintf("count(shares=%d)", shares), shares: int(shares), scalar: true}
 	c.genMeas = func(t *rapid.T, label string) (any, bool) {
 		return rapid.Bool().Draw(t, label), true // both values are the extremes 0 and max
 	}
@@ -165,7 +168,7 @@ func newSumCase(shares uint8, max uint64, ctx []byte) (*icase, *buildErr) {
 	if nb < 64 {
 		offset = (uint64(1) << uint(nb)) - 1 - max
 	}
-	c := &icase{I: I, name: "sum", desc: fmt.Sprintf("sum(shares=%d,max=%d)", shares, max), shares: int(shares), scalar: true}
+	c := &icase{I: I, algID: 2, ctx: ctx, name: "sum", desc: fmt.Sprintf("sum(shares=%d,max=%d)", shares, max), shares: int(shares), scalar: true}
 	c.genMeas = func(t *rapid.T, label string) (any, bool) {
 		switch pick(t, 6, label+".k") {
 		case 0:
@@ -243,7 +246,7 @@ func newSumVecCase(shares uint8, length, nbits, chunk uint, ctx []byte) (*icase,
 	if nbits < 64 {
 		maxv = uint64(1)<<nbits - 1
 	}
-	c := &icase{I: I, name: "sumvec", desc: fmt.Sprintf("sumvec(shares=%d,len=%d,bits=%d,chunk=%d)", shares, length, nbits, chunk), shares: int(shares), chunk: int(chunk)}
+	c := &icase{I: I, algID: 3, ctx: ctx, name: "sumvec", desc: fmt.Sprintf("sumvec(shares=%d,len=%d,bits=%d,chunk=%d)", shares, length, nbits, chunk), shares: int(shares), chunk: int(chunk)}
 	c.genMeas = func(t *rapid.T, label string) (any, bool) {
 		v := make([]uint64, length)
 		k := pick(t, 5, label+".k")
@@ -322,7 +325,7 @@ func newHistogramCase(shares uint8, length, chunk uint, ctx []byte) (*icase, *bu
 	if be != nil {
 		return nil, be
 	}
-	c := &icase{I: I, name: "histogram", desc: fmt.Sprintf("histogram(shares=%d,len=%d,chunk=%d)", shares, length, chunk), shares: int(shares), chunk: int(chunk)}
+	c := &icase{I: I, algID: 4, ctx: ctx, name: "histogram", desc: fmt.Sprintf("histogram(shares=%d,len=%d,chunk=%d)", shares, length, chunk), shares: int(shares), chunk: int(chunk)}
 	c.genMeas = func(t *rapid.T, label string) (any, bool) {
 		switch pick(t, 4, label+".k") {
 		case 0:
@@ -405,7 +408,7 @@ func newMhcvCase(shares uint8, length, maxW, chunk uint, ctx []byte) (*icase, *b
 	}
 	nb := bits.Len64(uint64(maxW))
 	offset := (uint64(1) << uint(nb)) - 1 - uint64(maxW)
-	c := &icase{I: I, name: "mhcv", desc: fmt.Sprintf("mhcv(shares=%d,len=%d,maxw=%d,chunk=%d)", shares, length, maxW, chunk), shares: int(shares), chunk: int(chunk)}
+	c := &icase{I: I, algID: 5, ctx: ctx, name: "mhcv", desc: fmt.Sprintf("mhcv(shares=%d,len=%d,maxw=%d,chunk=%d)", shares, length, maxW, chunk), shares: int(shares), chunk: int(chunk)}
 	withWeight := func(t *rapid.T, w int, label string) []bool {
 		v := make([]bool, length)
 		perm := rapid.Permutation(seq(int(length))).Draw(t, label+".perm")
